@@ -39,7 +39,7 @@ def tensor_spec(draw, max_order=4):
     kind = draw(st.sampled_from(['gauss', 'gauss', 'lowrank', 'lowrank_noise', 'lowrank_noise', 'decay', 'decay', 'zero', 'flat', 'flat']))
     return {'rows': rows, 'cols': cols, 'kind': kind, 'cplx': draw(st.booleans()), 'seed': draw(gen.SEED),
             'rank': draw(st.integers(1, 3)), 'noise_exp': draw(st.integers(-10, -1)), 'decay': draw(st.sampled_from([0.5, 0.1, 0.01])),
-            'scale_exp': draw(st.sampled_from([0, 0, 0, -9, -14, 7]))}
+            'scale_exp': draw(st.sampled_from([0, 0, 0, -9, -14, 7, -17, -30, 20]))}
 
 
 def make_tensor(ts):
@@ -123,10 +123,11 @@ def cap_of(case, d):
     c = case['cap']
     if c is None:
         return np.inf, [np.inf] * (d + 1)
+    npint = bool(case.get('cap_numpy_int'))      # caps as NumPy integer scalars (documented alongside python ints)
     if isinstance(c, list):
-        lst = [(np.inf if v is None else int(v)) for v in c]
-        return lst, list(lst)          # (the list handed to the library, an independent copy of the requested caps)
-    return int(c), [1] + [int(c)] * (d - 1) + [1]
+        lst = [(np.inf if v is None else (np.int64(v) if npint else int(v))) for v in c]
+        return lst, [(np.inf if v is None else int(v)) for v in c]     # (the list handed to the library, an independent copy of the requested caps)
+    return (np.int64(c) if npint else int(c)), [1] + [int(c)] * (d - 1) + [1]
 
 
 # ---------------------------------------------------------------------------------------------------------
@@ -217,7 +218,14 @@ def cores_case(draw):
         cap[0] = 1
         cap[-1] = 1
     entry = draw(st.sampled_from(['ctor', 'ortho', 'left_then_right', 'right_then_left', 'left_only', 'right_only']))
-    return {'a': a, 'cap': cap, 'entry': entry}
+    return {'a': a, 'cap': cap, 'entry': entry, 'aliased': draw(st.sampled_from([False, False, False, True])),
+            'cap_numpy_int': draw(st.sampled_from([False, False, True]))}
+
+
+def fresh(cores):
+    """copies of the core arrays that keep the aliasing pattern (one array object used at several sites stays one object)"""
+    m = {}
+    return [m.setdefault(id(c), c.copy()) for c in cores]
 
 
 def body_cores(case):
@@ -230,6 +238,11 @@ def body_cores(case):
             r = cores[i].shape[3]
             w = 10.0 ** (-2.0 * np.arange(r))
             cores[i] = cores[i] * w[None, None, None, :]
+    if case.get('aliased'):
+        # the same ndarray object at every site of equal shape (a padding / boundary vector used twice, TT([c] * d))
+        seen = {}
+        for j, c in enumerate(cores):
+            cores[j] = seen.setdefault((c.shape, c.dtype.str), c)
     x = dense.contract(cores)
     nx = float(np.linalg.norm(x))
     cap, caps = cap_of(case, d)
@@ -241,9 +254,9 @@ def body_cores(case):
         warm.ortho(max_rank=cap)
         warm.ortho_left(max_rank=cap)
     if entry == 'ctor':
-        t = TT([c.copy() for c in cores], max_rank=cap)
+        t = TT(fresh(cores), max_rank=cap)
     else:
-        t = TT([c.copy() for c in cores])
+        t = TT(fresh(cores))
         if entry == 'ortho':
             r = t.ortho(max_rank=cap)
         elif entry == 'left_then_right':
@@ -261,9 +274,9 @@ def body_cores(case):
     if isinstance(cap, list):
         # the same list of caps once more on a fresh copy: a call that writes into its max_rank argument shows up here
         if entry == 'ctor':
-            t2 = TT([c.copy() for c in cores], max_rank=cap)
+            t2 = TT(fresh(cores), max_rank=cap)
         else:
-            t2 = TT([c.copy() for c in cores])
+            t2 = TT(fresh(cores))
             if entry == 'ortho':
                 t2.ortho(max_rank=cap)
             elif entry == 'left_then_right':
@@ -283,6 +296,8 @@ def body_cores(case):
     lab = gen.spec_labels(spec)
     lab.add(entry)
     lab.add('cap_list' if isinstance(case['cap'], list) else 'cap_int')
+    if case.get('aliased') and len({id(c) for c in cores}) < d:
+        lab.add('aliased_cores')
     spectra = unfold_spectra(x, spec['rows'], spec['cols'])
     full = [1] + [int(np.sum(s > 1e-13 * max(s[0], 1e-300))) for s in spectra] + [1]
     if any(caps[k] < full[k] for k in range(1, d)):
